@@ -43,3 +43,14 @@ pub mod varint;
 
 /// Application Layer Protocol Negotiation for WebTransport connections.
 pub const WEBTRANSPORT_ALPN: &[u8; 2] = b"h3";
+
+/// Verification hooks (add-only re-exports of private kernels; compiled only with `--cfg wtransport_verif`).
+#[cfg(wtransport_verif)]
+#[doc(hidden)]
+pub mod verif_hooks {
+    pub use crate::capsule::verif as capsule;
+    pub use crate::frame::verif as frame;
+    pub use crate::qpack::verif as qpack;
+    pub use crate::settings::verif as settings;
+    pub use crate::stream_header::verif as stream_header;
+}
